@@ -35,6 +35,8 @@ func runC15(c *engine.Ctx, tier string) {
 		if rel != pkgStorePropV2 {
 			registryCleanup(c, "C15.7/"+short, rel, 3)
 		}
+		versionStamping(c, "C15.8/"+short, rel, rel == pkgStoreTxV2, 4)
+		eventMapping(c, "C15.9/"+short, rel)
 	}
 }
 
@@ -494,6 +496,213 @@ func registryCleanup(c *engine.Ctx, id, rel string, min int) {
 				o.Fail(&engine.Violation{Key: p.Root.Name()[:strings.Index(p.Root.Name()+"$", "$")] + "|group " + m + " removed while it may hold other watchers", Pos: pos, Func: p.Root.Name(),
 					Msg:   "delete(" + m + ", " + k + ") removes the whole group of watchers of one record on a path that does not establish " + group + " == 0: the other watchers of that record are unregistered with it",
 					Found: engine.LitsString(engine.CondsBefore(p, i))})
+			}
+		}
+	}
+}
+
+// versionStamping: C15.8 — every record the store hands out carries the version (and log index) of
+// the primitive entry it was read from or written to.
+func versionStamping(c *engine.Ctx, id, rel string, indexed bool, min int) {
+	o := c.Custom(id, "K-must(version stamping)", "a record returned by a store method, collected into a returned list, put into a watch event, or handed back by Create/Update/UpdateStatus on success has had X.Version = uint64(entry.Version) written on that path"+map[bool]string{true: " (and X.Index from entry.Index)", false: ""}[indexed]+", with entry the primitive entry the record belongs to",
+		"the controllers' conditional updates (C15.1) use the version the record carries: a record without it can never be written again, one with a stale version overwrites a concurrent write")
+	defer o.Done(min)
+	paths, err := storePaths(c, rel)
+	if err != nil {
+		o.Undecided(rel, err.Error())
+		return
+	}
+	reported := map[string]bool{}
+	seen := map[string]bool{}
+	for _, p := range paths {
+		name := p.Root.Name()
+		if !strings.Contains(name, "Store.") {
+			continue
+		}
+		method := name[strings.LastIndex(name, ".")+1:]
+		check := func(i int, r, what string) {
+			e := &p.Events[i]
+			pos := c.P.Pos(e.Pos)
+			if !seen[pos+what] {
+				seen[pos+what] = true
+				o.Site(pos + " " + what + " in " + name)
+			}
+			o.Eval(1)
+			r = stripHash(strings.TrimPrefix(r, "*"))
+			for _, field := range []string{"Version", "Index"} {
+				if field == "Index" && !indexed {
+					continue
+				}
+				ok := false
+				for j := 0; j < i; j++ {
+					w := &p.Events[j]
+					if w.Kind != engine.EvWrite || stripHash(w.LHS) != r+"."+field {
+						continue
+					}
+					if strings.HasSuffix(r, ".Value") {
+						ok = strings.Contains(w.RHS, "("+strings.TrimSuffix(r, ".Value")+"."+field+")")
+					} else {
+						ok = strings.Contains(w.RHS, "."+field+")")
+					}
+				}
+				if !ok && !reported[pos+field] {
+					reported[pos+field] = true
+					o.Fail(&engine.Violation{Key: name[:strings.Index(name+"$", "$")] + "|" + what + " without " + field + " from the entry", Pos: pos, Func: name,
+						Msg: "the record " + c.Render(r) + " is handed out (" + what + ") on a path that did not set its " + field + " from the primitive entry"})
+				}
+			}
+		}
+		for i := range p.Events {
+			e := &p.Events[i]
+			switch e.Kind {
+			case engine.EvWrite:
+				if strings.HasSuffix(e.Field, "Event.Transaction") || strings.HasSuffix(e.Field, "Event.Proposal") || strings.HasSuffix(e.Field, "Event.Configuration") {
+					r := strings.TrimPrefix(e.RHS, "*")
+					if strings.HasSuffix(stripHash(r), ".Value") {
+						check(i, r, "event")
+					}
+				}
+			case engine.EvCall:
+				if e.CalleeName == "append" && len(e.Args) == 2 && strings.HasSuffix(stripHash(strings.TrimPrefix(e.Args[1], "*")), ".Value") && p.Lit == nil && method == "List" {
+					check(i, e.Args[1], "list element")
+				}
+			case engine.EvReturn:
+				if p.Lit != nil || i != len(p.Events)-1 {
+					continue
+				}
+				n := len(e.Results)
+				if n == 0 || e.Results[n-1] != "nil" {
+					continue
+				}
+				switch {
+				case n == 2 && strings.HasSuffix(stripHash(e.Results[0]), ".Value"):
+					check(i, e.Results[0], "returned record")
+				case n == 1 && (method == "Create" || method == "Update" || method == "UpdateStatus"):
+					// the record is the (only) pointer parameter of record type
+					for _, f := range p.Root.Decl.Type.Params.List {
+						for _, nm := range f.Names {
+							if t := p.Root.Pkg.TypesInfo.TypeOf(nm); t != nil && strings.HasPrefix(t.String(), "*") && strings.Contains(t.String(), "onos-api") {
+								check(i, "$"+namedOf(t), "written record")
+							}
+						}
+					}
+				}
+			}
+		}
+	}
+}
+
+// eventMapping: C15.9 — watch options take effect; primitive events keep their kind.
+func eventMapping(c *engine.Ctx, id, rel string) {
+	o := c.Custom(id, "K-table(event kinds, options)", "every WatchOption.apply assigns a field of the options; an event built under type(e) == Inserted/Updated/Removed carries Type CREATED/UPDATED/DELETED respectively",
+		"a handler that asks for replay or for one record's events gets exactly that; a watcher that maps CREATED and UPDATED differently is not misled")
+	defer o.Done(2)
+	pkg := c.P.Pkg(rel)
+	if pkg == nil {
+		o.Undecided(rel, "package not loaded")
+		return
+	}
+	for _, fi := range c.P.FuncsOf(pkg) {
+		if fi.Decl.Name.Name != "apply" || fi.Decl.Recv == nil || fi.Decl.Type.Params.NumFields() != 1 {
+			continue
+		}
+		pname := ""
+		if ns := fi.Decl.Type.Params.List[0].Names; len(ns) == 1 {
+			pname = ns[0].Name
+		}
+		assigns := false
+		ast.Inspect(fi.Decl.Body, func(n ast.Node) bool {
+			if call, ok := n.(*ast.CallExpr); ok {
+				// functional options: the options are handed to the option's function
+				for _, a := range call.Args {
+					if id, ok := a.(*ast.Ident); ok && id.Name == pname {
+						assigns = true
+					}
+				}
+			}
+			if as, ok := n.(*ast.AssignStmt); ok {
+				for _, l := range as.Lhs {
+					if sel, ok := l.(*ast.SelectorExpr); ok {
+						if id, ok := sel.X.(*ast.Ident); ok && id.Name == pname {
+							assigns = true
+						}
+					}
+				}
+			}
+			return true
+		})
+		o.Site(c.P.Pos(fi.Decl.Pos()) + " " + fi.Name())
+		o.Eval(1)
+		if !assigns {
+			o.Fail(&engine.Violation{Key: fi.Name() + "|option has no effect", Pos: c.P.Pos(fi.Decl.Pos()), Func: fi.Name(),
+				Msg: "the option's apply assigns no field of the options: asking for it changes nothing (a handler that relies on replay waits for ever)"})
+		}
+	}
+	for _, f := range pkg.Syntax {
+		ast.Inspect(f, func(n ast.Node) bool {
+			fl, ok := n.(*ast.FuncLit)
+			if !ok || fl.Type.Params.NumFields() != 1 || len(fl.Type.Params.List[0].Names) != 1 || !strings.HasSuffix(types.ExprString(fl.Type.Params.List[0].Type), "watchOptions") {
+				return true
+			}
+			pname := fl.Type.Params.List[0].Names[0].Name
+			assigns := false
+			ast.Inspect(fl.Body, func(m ast.Node) bool {
+				if as, ok := m.(*ast.AssignStmt); ok {
+					for _, l := range as.Lhs {
+						if sel, ok := l.(*ast.SelectorExpr); ok {
+							if id, ok := sel.X.(*ast.Ident); ok && id.Name == pname {
+								assigns = true
+							}
+						}
+					}
+				}
+				return true
+			})
+			o.Site(c.P.Pos(fl.Pos()) + " option literal")
+			o.Eval(1)
+			if !assigns {
+				o.Fail(&engine.Violation{Key: rel + "|option literal has no effect", Pos: c.P.Pos(fl.Pos()), Func: rel,
+					Msg: "the option's function assigns no field of the options: asking for it changes nothing"})
+			}
+			return true
+		})
+	}
+	paths, err := storePaths(c, rel)
+	if err != nil {
+		o.Undecided(rel, err.Error())
+		return
+	}
+	want := map[string]string{"Inserted": "_CREATED", "Updated": "_UPDATED", "Removed": "_DELETED"}
+	reported := map[string]bool{}
+	for _, p := range paths {
+		if p.Lit == nil || !strings.Contains(p.Root.Name(), "Store.") {
+			continue
+		}
+		for i := range p.Events {
+			e := &p.Events[i]
+			if e.Kind != engine.EvWrite || !strings.HasSuffix(e.Field, "Event.Type") {
+				continue
+			}
+			kind := ""
+			for _, l := range engine.CondsBefore(p, i) {
+				if strings.HasPrefix(l.L, "type(") && l.Mask == 2 {
+					for k := range want {
+						if strings.Contains(l.R, "."+k+"[") {
+							kind = k
+						}
+					}
+				}
+			}
+			if kind == "" {
+				continue
+			}
+			pos := c.P.Pos(e.Pos)
+			o.Site(pos + " " + kind + " → " + e.RHS)
+			o.Eval(1)
+			if !strings.HasSuffix(e.RHS, want[kind]) && !reported[pos] {
+				reported[pos] = true
+				o.Fail(&engine.Violation{Key: p.Root.Name()[:strings.Index(p.Root.Name()+"$", "$")] + "|" + kind + " mapped to " + e.RHS, Pos: pos, Func: p.Root.Name(),
+					Msg: "a primitive " + kind + " event is published as " + e.RHS + ", not " + want[kind]})
 			}
 		}
 	}
